@@ -65,6 +65,7 @@ vector<Node> Graph::add_operator(
   Device *ret_device = op->get_device();
   if (!ret_device) {
     // The device object should be inherited from `args[0]`.
+    if (argn > 0) CHECK_NODE(args[0]);
     ret_device = argn > 0
       ? ops_[args[0].oid_].rets[args[0].vid_].device
       : nullptr;
